@@ -167,6 +167,8 @@ def getitem(I, o, k):
         return getitem(I, o.values, k)
     if isinstance(o, ClassVal):
         return o  # Generic[T] subscription: type parameters carry no run-time meaning
+    if isinstance(o, ExternalVal) and (o.dotted.startswith("typing.") or o.dotted.startswith("collections.abc.")):
+        return o  # Callable[[X], Y], Sequence[T], ...: a typing construct (used in cast(...) and annotations)
     h = getattr(o, "__vf_getitem__", None)
     if h is not None:
         return h(I, k)
